@@ -52,6 +52,11 @@ CHECKS = {
     text="Exploration: every pattern up to length 4 (quick) / 5 (thorough) over the metacharacter alphabet, with and without backslash escaping, against every string up to length 3, in the six configurations the shell uses (whole match with/without leading-period rule, the four trims); plus random longer patterns with ranges, classes, collating symbols and equivalence classes over all printable ASCII and some non-ASCII characters. Compared with a reference matcher written from the POSIX text. Bounded search, not a proof.",
     note="Trusted: the harness' reference parser/matcher for the POSIX locale. Patterns whose meaning POSIX leaves undefined are skipped (counted in the evidence).",
     design="4/C04"),
+ "C11": dict(
+    technique="property-based testing / stateful: exhaustive + proptest operation histories on TrapSet over the real SignalSystem implementation against a per-signal reference merge; proptest scripts with a trapped signal delivered by self-kill at every position and asynchronously by the harness scheduler",
+    text="Exploration: every history of <=5 operations (quick: strided, thorough: complete) over a 35-operation alphabet x interactive/non-interactive x 3 sets of initially ignored signals, plus random histories of <=14 operations; after each operation the disposition installed in the simulated process for each of 9 signals must equal max(internal, user/inherited), set_action must fail exactly in the documented cases, take_caught_signal must yield each trapped delivery exactly once. Scripts: 40k (quick) / 2M (thorough) with `kill -s USR1 $$` at every position or SIGUSR1 raised by the scheduler before a generated step: exactly one trap execution, at a command boundary, seeing and preserving $?. Bounded.",
+    note="Trusted: the reference merge in harness/src/props/c11.rs, the scheduler's asynchronous raise (only when the process currently catches the signal). Delivery during the wait built-in and two deliveries before one boundary are not judged; terminal/job-control stoppers are exercised at API level only.",
+    design="4/C11"),
  "C12": dict(
     technique="property-based testing / stateful: exhaustive enumeration of valid job-event histories (automaton unranking) + proptest random histories against a shadow model and the documented invariants, checked through the public JobList API after every step",
     text="Exploration: every valid history up to length 5-6 (quick) / 6-7 (thorough) over 3-4 pids and the full operation alphabet, plus random histories of length <=60; after every transition the current/previous-job invariants, pid index, index stability and 21 job-ID queries are checked against a shadow map. Bounded exploration of the reachable state space (distinct observable states are counted), not an inductive proof.",
